@@ -125,6 +125,42 @@ class Sys:
         els = [self.vec._elements["s%d" % i] for i in range(self.n)]
         return tuple((e._value, e._enabled) for e in els) + (self.vec._state, self.vec._enabled)
 
+    _KNOWN = {
+        "vec": ("_elements", "_elements_by_name", "_device", "_group", "_definition", "_state", "_enabled"),
+        "el": ("_vector", "_definition", "_value", "_enabled", "_device"),
+        "dev": ("_groups", "_vectors", "_router", "_snooping_client", "_name"),
+    }
+
+    def hidden(self):
+        """whatever ELSE the vector, its elements and the driver carry in their vars() - trackers, caches, remembered
+        requests: state that is not switch state but may steer later operations, so configurations that differ in it
+        are different states of the graph (DESIGN: the canonical state is the complete vars() snapshot)"""
+
+        def flat(v, depth=0):
+            if v is None or isinstance(v, (bool, int, float, str, bytes)):
+                return v
+            if isinstance(v, (list, tuple)):
+                return tuple(flat(x, depth + 1) for x in v)
+            if isinstance(v, dict):
+                return tuple(sorted((repr(flat(k, depth + 1)), flat(x, depth + 1)) for k, x in v.items()))
+            if isinstance(v, (set, frozenset)):
+                return tuple(sorted(repr(flat(x, depth + 1)) for x in v))
+            if hasattr(v, "to_string") and callable(v.to_string):  # a protocol message
+                try:
+                    return ("msg", v.to_string())
+                except Exception:  # noqa
+                    return ("msg", type(v).__name__)
+            if any(v is e for e in self.vec._elements.values()):
+                return ("element", v.name)
+            return type(v).__name__
+
+        out = []
+        for label, obj, known in [("vec", self.vec, self._KNOWN["vec"]), ("dev", self.dev, self._KNOWN["dev"])] + [("el:%s" % k, e, self._KNOWN["el"]) for k, e in self.vec._elements.items()]:
+            for k, v in sorted(vars(obj).items()):
+                if k not in known and not callable(v):
+                    out.append((label, k, flat(v)))
+        return tuple(out)
+
     def on(self):
         return tuple(self.vec._elements["s%d" % i]._value == "On" for i in range(self.n))
 
@@ -328,6 +364,7 @@ def run_shard(shard):
     parent = {s0: None}
     fr = deque([s0])
     allops = list(ops(n, tier, mode))
+    alt = {}
     while fr:
         st = fr.popleft()
         path = []
@@ -369,6 +406,46 @@ def run_shard(shard):
             if ns not in parent:
                 parent[ns] = (st, op)
                 fr.append(ns)
+            elif ns != st and len(path) + 1 >= len(alt.get(ns, ())):
+                alt[ns] = path + [op]  # another (longer) history that enters the same switch state
+    # second histories: the driver / vector may carry more state than the switch values (a remembered request, a
+    # selection tracker ...); entering every state once more by a different history and applying every operation from
+    # there shows it, at twice the cost instead of a product with whatever is remembered
+    for st, apath in alt.items():
+        tree = []
+        x = st
+        while parent[x] is not None:
+            x, op_ = parent[x]
+            tree.append(op_)
+        tree.reverse()
+        if apath == tree:
+            continue
+        res["second_histories"] = res.get("second_histories", 0) + 1
+        for op in allops:
+            sysm = Sys(rule, init, mode)
+            for p in apath:
+                sysm.apply_quiet(p)
+            if sysm.state() != st:
+                raise AssertionError("second history %r does not reach %r" % (apath, st))
+            pre = sysm.on()
+            exc = None
+            published = []
+            try:
+                published = sysm.apply(op)
+            except Exception as e:
+                exc = e
+            post = sysm.on()
+            res["transitions"] += 1
+            if isinstance(exc, HandlerFault) or sysm.faulted:
+                published = [tuple((c.name, c.value) for c in m.children) for m in sysm.published if type(m).__name__ == "SetSwitchVector"]
+            fails = oracle(rule, pre, op, post, published, exc, sysm.deferred, sysm.faulted, sysm.visible())
+            fails += getters(sysm, rule, post)
+            for clause, disc, what in fails:
+                key = (clause, disc + ",second-history")
+                if key in sig:
+                    sig[key]["count"] += 1
+                else:
+                    sig[key] = {"clause": clause, "disc": disc + ",second-history", "what": what, "count": 1, "replay": {"rule": rule, "init": init, "path": apath, "op": op, "mode": mode, "second": True}}
     res["states"] = len(parent)
     res["violations"] = list(sig.values())
     if n == 3 and init == (True, False, False):
@@ -387,6 +464,7 @@ def finish(tier, seed, m):
         "operations_cut_short_by_a_failing_handler_or_client": m.get("handler_faults", 0),
         "samples": m["samples"][:3],
         "exhaustive": True,
+        "states_also_entered_by_a_second_history": m.get("second_histories", 0),
         "explanation": "each graph (rule, n, initial configuration) is explored to fixpoint; every transition runs the real SwitchVector through the real router",
     }
     cov["_vacuity_errors"] = ([] if m["published_checked"] > 1000 else ["few published messages"]) + ([] if m.get("handler_faults", 0) > 100 else ["failing handlers barely fired"])
@@ -413,4 +491,5 @@ def replay(rep):
         exc = e
     if isinstance(exc, HandlerFault) or sysm.faulted:
         pub = [tuple((c.name, c.value) for c in m.children) for m in sysm.published if type(m).__name__ == "SetSwitchVector"]
-    return [{"clause": c, "disc": d, "what": w} for c, d, w in oracle(rep["rule"], pre, op, sysm.on(), pub, exc, sysm.deferred, sysm.faulted, sysm.visible()) + getters(sysm, rep["rule"], sysm.on())]
+    sfx = ",second-history" if rep.get("second") else ""
+    return [{"clause": c, "disc": d + sfx, "what": w} for c, d, w in oracle(rep["rule"], pre, op, sysm.on(), pub, exc, sysm.deferred, sysm.faulted, sysm.visible()) + getters(sysm, rep["rule"], sysm.on())]
